@@ -5,13 +5,13 @@
    the last operation) for the spec -> implementation direction. *)
 EXTENDS PicoProgram, TLC, Json
 
-CONSTANTS Capacity, FixAbsent, FixEqWrite, FixTopLevel, SharedKeys,
+CONSTANTS Capacity, FixAbsent, FixEqWrite, FixTopLevel, FixVerifyRegs, SharedKeys,
           Vals,          \* values a keyed source / the singleton may hold
           WriteKeys,     \* sources the history may write / remove (subset of Keys \cup {SING})
           MaxOps,        \* depth bound on histories
           MaxRetain,     \* bound on simultaneous retains per node
           Shadow,        \* TRUE: also run a variant design BO as shadow state (see below)
-          SFixAbsent, SFixEqWrite, SFixTopLevel, SShared,
+          SFixAbsent, SFixEqWrite, SFixTopLevel, SFixVerifyRegs, SShared,
           Emit           \* "all": one REPLAY per generated transition; "final": only complete histories; "none"
 
 KeyOrderAB == <<"A", "B">>      \* cfg: KeyOrder <- KeyOrderAB
@@ -33,7 +33,7 @@ B == INSTANCE PicoB WITH KeyOf <- KeyOfNode
 \* same state: every history that the modelled and the variant implementation distinguish gets its own
 \* replay, which makes a regression to that variant show up in the exhaustive part of the check.
 KeyOfShadow(n) == IF SShared /\ n \in Twins THEN "twin" ELSE n
-BO == INSTANCE PicoB WITH KeyOf <- KeyOfShadow, FixAbsent <- SFixAbsent, FixEqWrite <- SFixEqWrite, FixTopLevel <- SFixTopLevel
+BO == INSTANCE PicoB WITH KeyOf <- KeyOfShadow, FixAbsent <- SFixAbsent, FixEqWrite <- SFixEqWrite, FixTopLevel <- SFixTopLevel, FixVerifyRegs <- SFixVerifyRegs
 
 VARIABLES db,     \* layer B state
           dbo,    \* shadow: state of the pinned design (constant when Shadow = FALSE)
